@@ -13,7 +13,7 @@ Open Scope N_scope.
 
 Definition Hsym (x : bytes) : bytes := 1000 :: x.
 Definition ser_sym (t : tx) : bytes :=
-  match t with TPut k v => 0 :: k :: N.of_nat (length v) :: v | TDel k => [1; k] end.
+  match t with TPut k v => 0 :: k :: N.of_nat (length v) :: v | TDel k => [1; k] | TOther x a b => [2; x; a; b] end.
 Definition sign_sym (p m : bytes) : bytes := 2000 :: p ++ 2001 :: m.
 Definition sigv_sym (p m s : bytes) : bool := bytes_eqb s (sign_sym p m).
 Definition SR_sym (s : store) : bytes :=
@@ -32,6 +32,9 @@ Variable extra : N.    (* number of additional registered validators *)
 Notation Vverify := (verify Hsym ser_sym (reg_sym extra) sigv_sym fl).
 Notation Vcommit := (commit Hsym ser_sym (reg_sym extra) sigv_sym sign_sym SR_sym fl me emb0).
 Notation Vappend_raw := (append_raw Hsym ser_sym (reg_sym extra) sigv_sym fl).
+(* the local validator key taken out of the registry for the duration of one commit *)
+Definition reg_off (p : bytes) : bool := if bytes_eqb p me then false else reg_sym extra p.
+Notation VcommitU := (commit Hsym ser_sym reg_off sigv_sym sign_sym SR_sym fl me emb0).
 Notation Vroot := (compute_tx_root Hsym ser_sym).
 Notation Vpre := pre.
 
@@ -55,7 +58,8 @@ Definition mk_raw (s : st) (d : rawdesc) : block :=
 
 Inductive op :=
 | OBegin (w : N) | OPut (w k : N) (v : bytes) | ODel (w k : N)
-| OCommit (w ts : N) | ORollback (w : N) | ORaw (d : rawdesc).
+| OCommit (w ts : N) | ORollback (w : N) | ORaw (d : rawdesc)
+| OCommitU (w ts : N).   (* registry.remove(me); commit(w); register(me) *)
 
 Definition step (maxtx : N) (s : st) (o : op) : st * N :=
   match o with
@@ -63,6 +67,7 @@ Definition step (maxtx : N) (s : st) (o : op) : st * N :=
   | OPut w k v => add_op s w (TPut k v)
   | ODel w k => add_op s w (TDel k)
   | OCommit w ts => Vcommit maxtx s w ts
+  | OCommitU w ts => VcommitU maxtx s w ts
   | ORollback w => rollback s w
   | ORaw d => Vappend_raw s (mk_raw s d)
   end.
@@ -97,7 +102,8 @@ Definition apply_dump (K : N) (d : list (option bytes)) (l : list tx) : list (op
   fold_left (fun d t =>
     map (fun ki => match t with
                    | TPut k v => if N.eqb (fst ki) k then Some v else snd ki
-                   | TDel k => if N.eqb (fst ki) k then None else snd ki end)
+                   | TDel k => if N.eqb (fst ki) k then None else snd ki
+                   | TOther _ _ _ => snd ki end)
         (combine (N_seq K) d)) l d.
 
 (* verdict of one step: 0 fine, 2 violation, 10+k known class *)
@@ -109,7 +115,7 @@ Definition step_oracle (K : N) (tr : wtrack) (ph : N) (pd : list (option bytes))
   let same := N.eqb h ph && dump_eqb d pd in
   let ok :=
     match o with
-    | OCommit w _ =>
+    | OCommit w _ | OCommitU w _ =>
         match aget tr w with
         | Some (l, _) =>
             if N.eqb r 0 then
@@ -132,7 +138,7 @@ Definition step_oracle (K : N) (tr : wtrack) (ph : N) (pd : list (option bytes))
            if N.eqb ph 0 && N.eqb r 0 && ok && (N.eqb v E_NOSIG || N.eqb v E_UNKNOWN || N.eqb v E_BADSIG)
            then V_KNOWN K_FIRSTSIG
            else if N.eqb r 0 && ok && N.eqb v E_TS then V_KNOWN K_TSREG else V_VIOLATION
-       | OCommit _ _ => if N.eqb r 0 && ok && N.eqb v E_TS then V_KNOWN K_TSREG else V_VIOLATION
+       | OCommit _ _ | OCommitU _ _ => if N.eqb r 0 && ok && N.eqb v E_TS then V_KNOWN K_TSREG else V_VIOLATION
        | _ => V_VIOLATION
        end.
 Definition track (tr : wtrack) (ph : N) (o : op) (r : N) : wtrack :=
@@ -269,7 +275,7 @@ Definition check_conc (c : conc_case) : N :=
   else
     (* model: begin + record every workspace, then commit in chain order, failed ones last *)
     let n := N.of_nat (length wss) in
-    let setup := flat_map (fun iw => OBegin (fst iw) :: map (fun t => match t with TPut k v => OPut (fst iw) k v | TDel k => ODel (fst iw) k end) (snd iw))
+    let setup := flat_map (fun iw => OBegin (fst iw) :: map (fun t => match t with TPut k v => OPut (fst iw) k v | TDel k => ODel (fst iw) k | TOther _ _ _ => ODel (fst iw) 999 end) (snd iw))
                           (combine (N_seq n) wss) in
     let order := flat_map (fun bt => match index_of (fst bt) wss 0 with Some i => [OCommit i (snd bt)] | None => [] end) (combine chain tss) in
     let failed := flat_map (fun ir => if N.eqb (snd ir) 0 then [] else [OCommit (fst ir) 0]) (combine (N_seq n) res) in
@@ -360,10 +366,13 @@ Fixpoint roots_agree (acc : bool) (r1 r2 : list (N * N)) : N :=   (* 0 agree, 1 
   | _, _ => 0
   end.
 (* (K, genesis ts, shared store?, blocks, replica 1: [(result, root id after the block)], replica 2 likewise, dump 1, dump 2) *)
-Definition replay_case := (N * N * bool * list rblock * list (N * N) * list (N * N) * list (option bytes) * list (option bytes))%type.
+(* ... and (direct 1, direct 2): state-root ids after applying ALL offered transaction lists, in order, straight to two
+   fresh stores with apply_transaction_to_store (what every replica does with a block) *)
+Definition replay_case := (N * N * bool * list rblock * list (N * N) * list (N * N) * list (option bytes) * list (option bytes) * (N * N))%type.
 Definition check_replay (c : replay_case) : N :=
-  let '(K, gts, shared, bs, r1, r2, d1, d2) := c in
+  let '(K, gts, shared, bs, r1, r2, d1, d2, dr) := c in
   let ra := roots_agree false r1 r2 in
+  if negb (N.eqb (fst dr) (snd dr)) then V_VIOLATION else
   if negb (list_eqb N.eqb (map fst r1) (map fst r2) && dump_eqb d1 d2 && N.eqb (N.of_nat (length r1)) (N.of_nat (length r2))) then V_VIOLATION
   else if N.eqb ra 2 then V_VIOLATION
   else if N.eqb ra 1 then (if shared then V_KNOWN K_ROOT else V_VIOLATION)
